@@ -113,13 +113,14 @@ def code_identities(ctx):
             if nth == 2 and name in ('hcp', 'rumpled', 'twoW', 'triclinic'): continue
             calc, calc6 = vc.calculator(name, nth, 4), vc.calculator(name, nth, 6)
             if nth == 1: _tie_generator(ctx, name, calc)
-            for t in range(2 if ctx.quick else 4):
+            for t in range(3 if ctx.quick else 6):
                 d = vc.rand_data(ctx.rng, calc, spread=(1.0 if t % 2 == 0 else 3.0), tracer=True)
-                bf = calc.preene2betafree(1.0, **d)
+                kT = (1.0, 0.4, 2.5)[t % 3]      # the tracer identities hold at every temperature
+                bf = calc.preene2betafree(kT, **d)
                 L0vv, Lss, Lsv, L1vv = calc.Lij(*bf); M = calc6.Lij(*bf)
                 sc = max(np.abs(L0vv).max(), 1e-300)
                 tol = 1e-7 * sc + 5 * max(np.abs(np.asarray(x) - np.asarray(y)).max() for x, y in zip((L0vv, Lss, Lsv, L1vv), M))
-                rep = dict(calculator=name, nthermo=nth, data=vc.jsonable(d), L0vv=np.asarray(L0vv).tolist(), Lss=np.asarray(Lss).tolist(),
+                rep = dict(calculator=name, nthermo=nth, kT=kT, data=vc.jsonable(d), L0vv=np.asarray(L0vv).tolist(), Lss=np.asarray(Lss).tolist(),
                            Lsv=np.asarray(Lsv).tolist(), L1vv=np.asarray(L1vv).tolist(), tol=float(tol))
                 ctx.case(('code', name, nth, t, str(d['eneT0'])), nontrivial=bool(len(set(np.round(d['eneT0'], 6))) > 1 or len(calc.sitelist) > 1),
                          sample=dict(calculator=name, nthermo=nth, max_Lsv_plus_L0vv=float(np.abs(Lsv + L0vv).max()), max_L1vv=float(np.abs(L1vv).max())))
